@@ -1,0 +1,115 @@
+//! Verification-only hooks (compiled only with `--cfg reinterpretcat_vrp_verif`).
+//!
+//! Provides:
+//! - a textual digest of the module-private cached values kept by [`RouteState`] and [`SolutionState`];
+//! - a process-global observer invoked after each applied insertion.
+
+use super::*;
+use crate::models::common::{MultiDimLoad, SingleDimLoad};
+use std::cell::RefCell;
+use std::sync::RwLock;
+
+type StateIndex = HashMap<TypeId, Arc<dyn Any + Send + Sync>, BuildHasherDefault<FxHasher>>;
+
+/// A type of the observer which is called after each applied insertion with the context, the index
+/// of the modified route and the inserted job.
+pub type VerifInsertionObserver = Arc<dyn Fn(&InsertionContext, usize, &Job) + Send + Sync>;
+
+static KEY_NAMES: RwLock<Option<HashMap<TypeId, &'static str>>> = RwLock::new(None);
+static INSERTION_OBSERVER: RwLock<Option<VerifInsertionObserver>> = RwLock::new(None);
+
+thread_local! {
+    static SEEN_KEYS: RefCell<HashSet<TypeId>> = RefCell::new(HashSet::new());
+}
+
+/// Remembers a readable name of the key type.
+pub(super) fn verif_note_key<K: 'static>() {
+    let type_id = TypeId::of::<K>();
+    let is_new = SEEN_KEYS.with(|seen| seen.borrow_mut().insert(type_id));
+    if is_new {
+        let mut names = KEY_NAMES.write().unwrap_or_else(|err| err.into_inner());
+        names.get_or_insert_with(HashMap::new).entry(type_id).or_insert_with(std::any::type_name::<K>);
+    }
+}
+
+/// Sets (or removes) a process-global observer called after each applied insertion.
+pub fn verif_set_insertion_observer(observer: Option<VerifInsertionObserver>) {
+    *INSERTION_OBSERVER.write().unwrap_or_else(|err| err.into_inner()) = observer;
+}
+
+/// Notifies the observer, if any, about applied insertion.
+pub(crate) fn verif_notify_insertion(insertion_ctx: &InsertionContext, route_index: usize, job: &Job) {
+    let observer = INSERTION_OBSERVER.read().unwrap_or_else(|err| err.into_inner()).clone();
+    if let Some(observer) = observer {
+        observer(insertion_ctx, route_index, job);
+    }
+}
+
+fn key_name(type_id: &TypeId) -> String {
+    KEY_NAMES
+        .read()
+        .unwrap_or_else(|err| err.into_inner())
+        .as_ref()
+        .and_then(|names| names.get(type_id).copied())
+        .map(|name| name.to_string())
+        .unwrap_or_else(|| format!("{type_id:?}"))
+}
+
+fn render_floats(values: &[Float]) -> String {
+    format!("[{}]", values.iter().map(|v| format!("{v:?}")).collect::<Vec<_>>().join(","))
+}
+
+fn render_value(any: &(dyn Any + Send + Sync)) -> String {
+    if let Some(v) = any.downcast_ref::<Float>() {
+        format!("{v:?}")
+    } else if let Some(v) = any.downcast_ref::<usize>() {
+        format!("{v}")
+    } else if let Some(v) = any.downcast_ref::<bool>() {
+        format!("{v}")
+    } else if let Some(v) = any.downcast_ref::<String>() {
+        format!("{v:?}")
+    } else if let Some(v) = any.downcast_ref::<Vec<Float>>() {
+        render_floats(v)
+    } else if let Some(v) = any.downcast_ref::<Vec<usize>>() {
+        format!("{v:?}")
+    } else if let Some(v) = any.downcast_ref::<Vec<(usize, usize)>>() {
+        format!("{v:?}")
+    } else if let Some(v) = any.downcast_ref::<Vec<SingleDimLoad>>() {
+        format!("[{}]", v.iter().map(|l| l.to_string()).collect::<Vec<_>>().join(","))
+    } else if let Some(v) = any.downcast_ref::<Vec<MultiDimLoad>>() {
+        format!("[{}]", v.iter().map(|l| l.to_string()).collect::<Vec<_>>().join(","))
+    } else if let Some(v) = any.downcast_ref::<Vec<Option<SingleDimLoad>>>() {
+        format!("[{}]", v.iter().map(|l| l.map_or("-".to_string(), |l| l.to_string())).collect::<Vec<_>>().join(","))
+    } else if let Some(v) = any.downcast_ref::<Vec<Option<MultiDimLoad>>>() {
+        format!("[{}]", v.iter().map(|l| l.map_or("-".to_string(), |l| l.to_string())).collect::<Vec<_>>().join(","))
+    } else if let Some(v) = any.downcast_ref::<HashSet<String>>() {
+        let mut items = v.iter().cloned().collect::<Vec<_>>();
+        items.sort();
+        format!("{{{}}}", items.join(","))
+    } else {
+        "<opaque>".to_string()
+    }
+}
+
+fn render_index(index: &StateIndex) -> Vec<(String, String)> {
+    let mut digest =
+        index.iter().map(|(type_id, value)| (key_name(type_id), render_value(value.as_ref()))).collect::<Vec<_>>();
+    digest.sort();
+    digest
+}
+
+impl RouteState {
+    /// Renders all cached values as sorted (key type name, value text) pairs.
+    /// Values of types which cannot be rendered are returned as `<opaque>`.
+    pub fn verif_digest(&self) -> Vec<(String, String)> {
+        render_index(&self.index)
+    }
+}
+
+impl SolutionState {
+    /// Renders all cached values as sorted (key type name, value text) pairs.
+    /// Values of types which cannot be rendered are returned as `<opaque>`.
+    pub fn verif_digest(&self) -> Vec<(String, String)> {
+        render_index(&self.index)
+    }
+}
